@@ -398,6 +398,29 @@ ASSUME08 = [
 
 
 # ----------------------------------------------------------------------------------------------- C10
+def tree_cpu(pid):
+    """utime + stime (clock ticks) of a process and its descendants."""
+    stat = {}
+    for e in os.listdir("/proc"):
+        if not e.isdigit():
+            continue
+        try:
+            f = open("/proc/%s/stat" % e).read()
+        except OSError:
+            continue
+        rest = f[f.rindex(")") + 2:].split()
+        stat[int(e)] = (int(rest[1]), int(rest[11]) + int(rest[12]))
+    total, todo, seen = 0, [pid], set()
+    while todo:
+        q = todo.pop()
+        if q in seen or q not in stat:
+            continue
+        seen.add(q)
+        total += stat[q][1]
+        todo += [c for c, (pp, _) in stat.items() if pp == q]
+    return total
+
+
 def run_script(binp, d, i, strace, rnd):
     sc = json.load(open(os.path.join(d, "script-%d.json" % i)))
     wd = os.path.join(d, "run-%d" % i)
@@ -446,13 +469,22 @@ def run_script(binp, d, i, strace, rnd):
             t.start()
         for t in order:
             t.join()
-        # wait until the output stops growing
-        last, stable = -1, 0
-        dl = time.time() + 10
-        while time.time() < dl and stable < 6:
-            sz = os.path.getsize(op)
-            stable = stable + 1 if sz == last else 0
-            last = sz
+        # wait until the daemon has digested everything: both pipes drained, and then neither the output file nor the
+        # CPU time of the daemon (and of strace around it) has moved for 0.6 s (load on the machine must not cut a run short)
+        import fcntl, struct, termios
+
+        def pending(fd):
+            try:
+                return struct.unpack("i", fcntl.ioctl(fd, termios.FIONREAD, b"\0\0\0\0"))[0]
+            except OSError:
+                return 0
+        last, stable = (-1, -1), 0
+        dl = time.time() + 30
+        while time.time() < dl and stable < 12 and proc.poll() is None:
+            cur = (os.path.getsize(op), tree_cpu(proc.pid))
+            quiet = cur == last and pending(sw) == 0 and pending(aw) == 0
+            stable = stable + 1 if quiet else 0
+            last = cur
             time.sleep(0.05)
         ok = proc.poll() is None
         os.close(sw)
